@@ -408,28 +408,17 @@ func matchAll(_ Context, doc bsonkit.Doc, name, path string, v interface{}) erro
 			return ErrNotMatched
 		}
 
-		// check if array contains array
-		if arr, ok := field.(bson.A); ok {
-			matches := true
-			for _, value := range array {
-				ok := false
-				for _, element := range arr {
-					if bsonkit.Compare(value, element) == 0 {
-						ok = true
-					}
-				}
-				if !ok {
-					matches = false
-				}
-			}
-			if matches {
-				return nil
-			}
-		}
-
-		// check if field is in array
+		// every item must equal the field or, if the field is an array, one
+		// of its elements
+		arr, _ := field.(bson.A)
 		for _, item := range array {
-			if bsonkit.Compare(field, item) != 0 {
+			ok := bsonkit.Compare(field, item) == 0
+			for _, element := range arr {
+				if bsonkit.Compare(item, element) == 0 {
+					ok = true
+				}
+			}
+			if !ok {
 				return ErrNotMatched
 			}
 		}
